@@ -182,7 +182,15 @@ def mainStep (cfg : Cfg) (me : Nat) (sh : Shared) (p : Proc) : Shared × Proc :=
   | .fin (some .relLock) st => (release sh (.run me), { p with loc := .fin none st })
   | .fin none st => (release sh (.run me), { p with dead := some st })
 
-/-- one step of a running signal handler (`handle_error(code, frame)`) -/
+/-- one step of a running signal handler (`handle_error(code, frame)`).
+
+    **Model rule (assumption on the helper modules): no exception escapes `handle_error` before `sys.exit(1)`.**
+    Whatever `cleanup()` calls (`rmfile(pid)`, the lock release, `notifications.Reporter.eoj`), the handler's last
+    stage is always `exit`, i.e. `SystemExit(1)` is raised into the interrupted frame and the body never resumes.
+    The real-code counterpart of this rule is the helper-fault family of `harness/xv/props/c10.py`
+    (`plan_helpers`: notification endpoint answers / drops / refuses / garbled URL, files removed under the
+    clean-up, body shapes plain / try-except / try-finally); where the source breaks it the monitor
+    `handler-exception-escapes:<fault>` reports the concrete input (findings C10-N1, C10-N2). -/
 def handlerStep (cfg : Cfg) (me : Nat) (sh : Shared) (p : Proc) (code : Nat) : HS → Shared × Proc
   | .write =>
       ({ sh with failed := some code }, { p with hnd := some (hsAfterWrite cfg, code), wroteFailed := markEpoch sh p })
